@@ -183,7 +183,7 @@ theorem agv_setAgent (s : State) (a a' : Agent) (hn : (s.agents.map (·.name)).N
 theorem runAgInstrs_name (et : String) (s : State) (a : Agent) (is : List (Instr ExtState)) : (runAgInstrs et s a is).2.1.name = a.name := by
   induction is generalizing s a with
   | nil => rfl
-  | cons i is ih => cases i <;> simp only [runAgInstrs] <;> first | rfl | (rw [ih])
+  | cons i is ih => cases i <;> simp only [runAgInstrs] <;> first | rfl | (rw [ih]; done) | (rw [ih]; split <;> rfl)
 
 theorem runAgInstrs_isLE (et : String) (s : State) (a : Agent) (is : List (Instr ExtState))
     (hno : ∀ i ∈ is, i ≠ Instr.set ExtState.launchError) (ha : isLE a = false) : isLE (runAgInstrs et s a is).2.1 = false := by
@@ -197,7 +197,7 @@ theorem runAgInstrs_isLE (et : String) (s : State) (a : Agent) (is : List (Instr
       apply ih _ _ hno'
       have : x ≠ .launchError := by intro e; exact hno _ List.mem_cons_self (by rw [e])
       simp [isLE, this]
-    | flow f chk => simp only [runAgInstrs]; exact ih _ _ hno' ha
+    | flow f chk => simp only [runAgInstrs]; exact ih _ _ hno' (by split <;> simpa [isLE] using ha)
     | suspend ok nx => exact ha
     | subscribe es => simp only [runAgInstrs]; exact ih _ _ hno' (by simpa [isLE] using ha)
     | setErrType => simp only [runAgInstrs]; exact ih _ _ hno' (by simpa [isLE] using ha)
